@@ -15,6 +15,7 @@ import (
 	"encoding/json"
 	"fmt"
 	"io"
+	"net"
 	"os"
 	"path/filepath"
 	"reflect"
@@ -27,6 +28,7 @@ import (
 
 	"github.com/tetratelabs/wazero"
 	"github.com/tetratelabs/wazero/api"
+	"github.com/tetratelabs/wazero/experimental/sock"
 	expsys "github.com/tetratelabs/wazero/experimental/sys"
 	"github.com/tetratelabs/wazero/imports/wasi_snapshot_preview1"
 	"github.com/tetratelabs/wazero/internal/wasm"
@@ -39,7 +41,7 @@ type Case struct {
 	ID     int      `json:"id"`
 	Fn     string   `json:"fn"`
 	Args   []uint64 `json:"args"`
-	State  string   `json:"state"`  // bare | dir | hole
+	State  string   `json:"state"`  // bare | dir | hole | sock
 	Img    string   `json:"img"`    // zero | struct | ff | rand:<n>
 	Engine string   `json:"engine"` // interpreter | compiler
 	Tag    string   `json:"tag,omitempty"`
@@ -226,18 +228,47 @@ func (e *childEnv) exec(c Case) Result {
 	for _, kv := range hostEnv {
 		cfg = cfg.WithEnv(kv[0], kv[1])
 	}
-	if c.State != "bare" {
+	if (c.State == "dir" || c.State == "hole") {
 		if e.dirty {
 			e.rebuildDir()
 		}
 		e.dirty = mutatesDir(c.Fn)
 		cfg = cfg.WithFSConfig(wazero.NewFSConfig().WithDirMount(e.dir, preopenName))
 	}
-	mod, err := rt.InstantiateModule(e.ctx, cm, cfg)
+	ictx := e.ctx
+	if c.State == "sock" {
+		ictx = sock.WithConfig(ictx, sock.NewConfig().WithTCPListener("127.0.0.1", 0))
+	}
+	mod, err := rt.InstantiateModule(ictx, cm, cfg)
 	must(err)
 	defer mod.Close(e.ctx)
 	fsc := mod.(*wasm.ModuleInstance).Sys.FS()
-	if c.State != "bare" {
+	if c.State == "sock" {
+		// table {0,1,2, 3 = pre-opened TCP listener (non-blocking), 4 = an accepted connection whose peer has sent
+		// 19 bytes and closed its sending side (reads end with EOF instead of blocking)}
+		l, ok := fsc.LookupFile(3)
+		if !ok {
+			must(fmt.Errorf("no listener"))
+		}
+		a, ok := l.File.(interface{ Addr() *net.TCPAddr })
+		if !ok {
+			must(fmt.Errorf("listener of type %T has no Addr", l.File))
+		}
+		peer, derr := net.DialTimeout("tcp", a.Addr().String(), 5*time.Second)
+		must(derr)
+		defer peer.Close()
+		peer.Write([]byte("hello from the peer"))
+		peer.(*net.TCPConn).CloseWrite()
+		out, aerr := mod.ExportedFunction("c_sock_accept").Call(e.ctx, 3, 0, 64)
+		must(aerr)
+		if out[0] != 0 {
+			must(fmt.Errorf("setup sock_accept: errno %d", out[0]))
+		}
+		if _, ferr := mod.ExportedFunction("c_fd_fdstat_set_flags").Call(e.ctx, 3, 4); ferr != nil {
+			must(ferr)
+		}
+	}
+	if (c.State == "dir" || c.State == "hole") {
 		pre, ok := fsc.LookupFile(3)
 		if !ok {
 			must(fmt.Errorf("no preopen"))
@@ -247,8 +278,8 @@ func (e *childEnv) exec(c Case) Result {
 				must(fmt.Errorf("setup open %s: %v", p, errno))
 			}
 		}
-		open("f.txt", expsys.O_RDWR)                     // fd 4: regular file
-		open("d", expsys.O_RDONLY|expsys.O_DIRECTORY)    // fd 5: directory
+		open("f.txt", expsys.O_RDWR)                  // fd 4: regular file
+		open("d", expsys.O_RDONLY|expsys.O_DIRECTORY) // fd 5: directory
 		if c.State == "hole" {
 			open("f.txt", expsys.O_RDONLY) // fd 6
 			fsc.CloseFile(5)               // table {0,1,2,3,4,6}
